@@ -5,8 +5,9 @@
 # 3. applies the change to /repo, runs ./check <PID> (quick sized), reverts /repo straight afterwards
 set -u
 pid="$1"; i="$2"; shift 2
-# ROUND=2: the change comes from /tmp/seed2-<PID>/change<i>.diff and is stored as seeded/<PID>-<i+2>
-if [ "${ROUND:-1}" = "2" ]; then wt="/tmp/seed2-$pid"; j=$((i+2)); else wt="/tmp/seed-$pid"; j="$i"; fi
+# ROUND=r (r>=2): the change comes from /tmp/seed<r>-<PID>/change<i>.diff and is stored as seeded/<PID>-<i+2(r-1)>
+r="${ROUND:-1}"
+if [ "$r" = "1" ]; then wt="/tmp/seed-$pid"; j="$i"; else wt="/tmp/seed$r-$pid"; j=$((i+2*(r-1))); fi
 dst="/verif/seeded/$pid-$j"
 mkdir -p "$dst"
 cp "$wt/change$i.diff" "$dst/patch.diff" || exit 3
